@@ -11,7 +11,7 @@ EXPLANATION = ('Census and guard rules over lightning::offers and lightning-invo
 	'signature TLVs (240..=1000) are excluded from the signed merkle tree by the range test; Bolt11Invoice is constructed only in from_signed / the builder, from_signed returns Ok only '
 	'behind check_field_counts, check_feature_bits, check_signature and check_amount, check_signature verifies against the included payee key when present (recovery otherwise), and a parsed '
 	'SignedRawBolt11Invoice carries the hash computed from the parsed HRP + data; stateless metadata verification returns Ok only on the constant-time comparison\'s true edge, and '
-	'the verify_using_* entry points reach it; TLV type numbers lie in their stream\'s declared range and the ranges are disjoint. Decides "parse implies verified" on all paths; '
+	'the verify_using_* entry points reach it; TLV type numbers lie in their stream\'s declared range and the ranges are disjoint. Also: BOLT-11 expiry and timestamp can only hold whole seconds (single constructor, Duration::from_secs). Decides "parse implies verified" on all paths; '
 	'round-trip equality and panic freedom of the parsers are not decided.')
 ASSUMPTIONS = ['secp256k1 verify_schnorr / verify_ecdsa / recover_ecdsa and bech32 checksum validation are correct', 'fixed_time_eq compares its two arguments']
 
